@@ -158,6 +158,9 @@ class SetDeserialize:
     kinds = {"data": "list", "values": "set"}
     raises = ["ValidationError"]
     exports = ["C01: returns iff data is an array whose elements all conform and whose constraints hold", "C01: image is a set"]
+    assumptions = [
+        "SetMethod / FrozenSetMethod: the image of every accepted element is hashable (precondition of their contracts, passed on to the collection factory's call site as 'Python typing of the annotated type'); it does NOT hold for Set[Any] / FrozenSet[Any] whose Any node returns lists and dicts: known finding C03 crash<TypeError> (bounded driver, deserialize(Set[Any], [[1]]))"
+    ]
 
     def requires(self, c):
         s = c.self
